@@ -107,7 +107,19 @@ def _worker(task):
         except (KeyboardInterrupt, SystemExit):
             raise
         except BaseException:
-            out["errors"].append(traceback.format_exc()[-1500:])
+            tb = traceback.format_exc()[-1500:]
+            try:
+                # keep the scenario: a harness error has to be reproducible like a violation
+                d = os.environ.get("VERIF_REPLAY_DIR") or os.path.join(VERIF_DIR, "replays")
+                os.makedirs(d, exist_ok=True)
+                name = f"harness-error-{prop}-{hashlib.sha256(tb.encode()).hexdigest()[:8]}.json"
+                with open(os.path.join(d, name), "w") as f:
+                    json.dump({"property": prop, "harness_error": tb, "scenario": jsonable(sc) if sc is not None else None,
+                               "engine": task["engine"], "seed": seed}, f, default=str)
+                tb += f"\n(scenario kept in {os.path.join(d, name)})"
+            except Exception:  # noqa
+                pass
+            out["errors"].append(tb)
             continue
         out["n"] += 1
         out["frames"] += res.get("frames", 0)
